@@ -99,7 +99,15 @@ def check(case, acc):
   probes, _allms = admissible_probes(K)
   nonblank = False
   if cfg[0] == "srt" and any(_SRT_MARKUP.search(n.get("t", "")) for n, _ in _walk(spec["body"]) if n["k"] == "text"):
-    acc.case("srt:text-looks-like-markup")     # SubRip has no escape mechanism: such text cannot be represented
+    # SubRip has no escape mechanism: the payload of such text is not compared, but the cue itself must be there
+    for t in probes:
+      if t > K[-1]:
+        continue
+      if wc.flat_lines(wc.expected_at(spec, t, idx)) and not wc.cues_at(cues, t):
+        acc.violation("C06.cue-present", "srt:markup-like-text", dict(cc, t=t), observed=[str((c.begin, c.end)) for c in cues][:6],
+                      expected="a cue covering t", note="non-blank text that looks like SubRip markup is visible at t but no cue covers t")
+        break
+    acc.case("srt:text-looks-like-markup")
     return
   # where does the last visible interval end in the reference?
   for t in probes:
@@ -228,6 +236,9 @@ def families(check_fn, configs=None, thorough=False):
                "millisecond / sub-millisecond / unbounded intervals"))
   fams.append(("F-ruby", 8, lambda i: wc.ruby_doc(i % 4, i // 4), cfgs, "ruby patterns"))
   al = wc.fam_align_items()
+  ge = wc.fam_geom_items()
+  fams.append(("F-geometry", ge.n, lambda i: wc.geom_doc(*ge.decode(i)), [c for c in cfgs if c[0] == "vtt"],
+               "region origin / height with fractional percentages and regions reaching beyond the root container x display alignment"))
   fams.append(("F-align", al.n, lambda i: wc.align_doc(*al.decode(i)), [c for c in cfgs if c[0] == "vtt"], "text alignment / direction / display alignment"))
   out = []
   for name, n, mk, cf, note in fams:
